@@ -220,7 +220,7 @@ PROPS = {
     },
     "C05": {
         "proofs": ["ZlProofs.Props.C05", "ZlProofs.Props.Bodies"],  # Bodies: the translated rules are functions of the view (no state to remember, nothing to write)
-        "corr": ["bodies"],
+        "corr": ["bodies", "framework"],  # framework: the wrappers themselves are functions of (object, registry, configuration) — a clock read in a window check shows as a disagreement with the model
         "search": ["c05"],
         "trusted_base": TB_COMMON + ["the SSA footprint analysis of extract/funcs.go (stores through object-rooted addresses incl. append aliasing and re-slices, stores to package-level variables, calls leaving the module, map-range sites)",
                                      "the hand-written allow-lists in ZlProofs/Props/C05.lean (pure packages, function-level rules, documented clock/file sites, reviewed map ranges and appends) are part of the specification"],
